@@ -186,6 +186,14 @@ MICRO_FORK = dict(what="fork / re-combine shapes over the micro alphabet (extend
 JOIN_SHARED = dict(what="every join type x key spec over all pairs of tables sharing a non-key column, <= 1 row each (sampled)",
                    fams=["stack", "binary"], rows=1, steps=2, level=2, one_in=4, tabcols="MCJ_TabCols", colvals="MCJ_ColVals")
 
+MICRO_WP = dict(what="two consecutive windowed extends that differ in their partition (whole table / by y), same ordering, "
+                     "independent targets: every 2-call pipeline over all tables of <= 2 rows",
+                fams=["wp"], rows=2, steps=2, level=0, tabcols="MCB_TabCols", colvals="MCW_ColVals", timeout=300)
+MICRO_OO2 = dict(what="two consecutive order_rows (either direction, no limit / 1 / 2): every 2-call pipeline over all tables of <= 2 rows",
+                 fams=["oor"], rows=2, steps=2, level=0, tabcols="MCB_TabCols", colvals="MCW_ColVals", timeout=300)
+MICRO_OJ = dict(what="order_rows (limit 0 | 1) on either side right before a join with differently named keys (left.o = right.x) "
+                     "or a concat: every 3- and 4-call behaviour over two tables with the same columns, <= 1 row",
+                fams=["oo", "stack", "bink", "binary"], rows=1, steps=4, level=0, tabcols="MCB2_TabCols", colvals="MCB_ColVals", timeout=300)
 JOIN_2KEYS = dict(what="every join type x key spec (one key, two keys, differently named keys, crossed keys a=b & b=a) over two tables "
                        "with the same three numeric columns, <= 1 row each (one in 6 replayed)",
                   fams=["stack", "binary"], rows=1, steps=2, level=2, one_in=6, tabcols="MCB2_TabCols", colvals="MCB_ColVals")
